@@ -391,25 +391,34 @@ theorem trim_forestOK (r1 : Repo) (hf : ForestOK r1) (id bi : Nat) (h : Int)
 
 /-- **marking a header invalid keeps the forest well linked**, whatever the outcome (already marked, unknown
     hash, trimmed, or an error from `Trim`). -/
+theorem markRecord_frame (r : Repo) (id : Nat) :
+    (markRecord r id).arena = r.arena ∧ (markRecord r id).branches = r.branches ∧
+    (markRecord r id).longest = r.longest := by
+  unfold markRecord
+  split
+  · exact ⟨rfl, rfl, rfl⟩
+  · exact ⟨rfl, rfl, rfl⟩
+
+theorem forestOK_markRecord (r : Repo) (hf : ForestOK r) (id : Nat) : ForestOK (markRecord r id) :=
+  forestOK_of_frame r _ hf (markRecord_frame r id).1 (markRecord_frame r id).2.1
+
 theorem forestOK_markInvalid (r : Repo) (hf : ForestOK r) (id : Nat) : ForestOK (markInvalid r id).1 := by
   unfold markInvalid
-  split
-  · exact hf
-  · have hf1 : ForestOK (saveInvalid { r with invalid := r.invalid ++ [id] }) := forestOK_of_frame r _ hf rfl rfl
+  have hf1 : ForestOK (markRecord r id) := forestOK_markRecord r hf id
+  simp only
+  cases hfind : (markRecord r id).branchesFind id with
+  | none => exact hf1
+  | some x =>
+    obtain ⟨bi, h⟩ := x
     simp only
-    cases hfind : (saveInvalid { r with invalid := r.invalid ++ [id] }).branchesFind id with
-    | none => exact hf1
-    | some x =>
-      obtain ⟨bi, h⟩ := x
+    cases ht : trim (markRecord r id) bi h with
+    | error e => exact hf1
+    | ok r2 =>
       simp only
-      cases ht : trim (saveInvalid { r with invalid := r.invalid ++ [id] }) bi h with
-      | error e => exact hf1
-      | ok r2 =>
-        simp only
-        have hf2 := trim_forestOK _ hf1 id bi h hfind r2 ht
-        cases longestOf r2.arena r2.branches with
-        | none => exact hf2
-        | some lg => exact forestOK_of_frame r2 _ hf2 rfl rfl
+      have hf2 := trim_forestOK _ hf1 id bi h hfind r2 ht
+      cases longestOf r2.arena r2.branches with
+      | none => exact hf2
+      | some lg => exact forestOK_of_frame r2 _ hf2 rfl rfl
 
 /-- unmarking changes the invalid list only. -/
 theorem markNotInvalid_frame (r : Repo) (id : Nat) :
